@@ -28,24 +28,35 @@ CLASSIFY = {
     "nunavut.jinja.environment:CodeGenEnvironmentBuilder.set_lstrip_blocks": ("build", "environment builder"),
     "nunavut.jinja.environment:CodeGenEnvironmentBuilder.set_trim_blocks": ("build", "environment builder"),
     "nunavut.jinja.loaders:DSDLTemplateLoader._type_to_template_internal": ("cache", "type -> template name, keyed by type (C16)"),
-    "nunavut.lang._common:TokenEncoder.strop": ("cache", "lru_cache keyed by (encoder, token, type); strop is a function of its arguments and the immutable configuration (C09)"),
-    "nunavut.lang._common:UniqueNameGenerator.__call__": ("reset", "UniqueNameGenerator.reset()"),
-    "nunavut.lang._common:UniqueNameGenerator.reset": ("reset", "UniqueNameGenerator.reset()"),
+    "nunavut.lang._common:TokenEncoder.strop": ("cache", "lru_cache keyed by (encoder, token, type); strop is a function of its arguments and the immutable configuration (C09)", {"memoised:lru_cache"}),
+    "nunavut._utilities:cached_property.__get__": ("cache", "the cached_property mechanism: one value per instance, stored in the instance's own __dict__", {"instance.__dict__"}),
+    "nunavut.lang._common:UniqueNameGenerator.__call__": ("reset", "UniqueNameGenerator.reset()", {"self._index_map"}),
+    "nunavut.lang._common:UniqueNameGenerator.reset": ("reset", "UniqueNameGenerator.reset()", {"cls._singleton"}),
     "nunavut.lang._config:LanguageConfig.add_section": ("build", "configuration"),
     "nunavut.lang._config:LanguageConfig.set": ("build", "configuration"),
     "nunavut.lang._config:LanguageConfig.update_section": ("build", "configuration"),
     "nunavut.lang._config:VersionReader.version": ("cache", "module version, read once"),
-    "nunavut.lang._language:Language.get_dependency_builder": ("cache", "lru_cache keyed by the type"),
+    "nunavut.lang._language:Language.get_dependency_builder": ("cache", "lru_cache keyed by the type", {"memoised:lru_cache"}),
     "nunavut.lang._language:Language.get_globals": ("cache", "globals map computed once from configuration"),
     "nunavut.lang._language:LanguageClassLoader.config": ("cache", "configuration loaded once"),
-    "nunavut.lang._language:LanguageClassLoader.load_language_class": ("cache", "class lookup keyed by name"),
-    "nunavut.lang.c:Language._token_encoder": ("cache", "TokenEncoder built once from configuration"),
-    "nunavut.lang.cpp:Language._token_encoder": ("cache", "TokenEncoder built once from configuration"),
-    "nunavut.lang.py:Language._token_encoder": ("cache", "TokenEncoder built once from configuration"),
-    "nunavut.lang.cpp:_make_textwrap": ("cache", "lru_cache keyed by its arguments"),
+    "nunavut.lang._language:LanguageClassLoader.load_language_class": ("cache", "class lookup keyed by name", {"memoised:lru_cache"}),
+    "nunavut.lang.c:Language._token_encoder": ("cache", "TokenEncoder built once from configuration", {"memoised:cached_property"}),
+    "nunavut.lang.cpp:Language._token_encoder": ("cache", "TokenEncoder built once from configuration", {"memoised:cached_property"}),
+    "nunavut.lang.py:Language._token_encoder": ("cache", "TokenEncoder built once from configuration", {"memoised:cached_property"}),
+    "nunavut.lang.cpp:_make_textwrap": ("cache", "lru_cache keyed by its arguments", {"memoised:lru_cache"}),
     "nunavut.lang:LanguageContext.get_supported_languages": ("cache", "language map built once"),
     "nunavut.lang:LanguageContextBuilder.set_target_language": ("build", "context builder"),
     "nunavut.lang:LanguageContextBuilder.set_target_language_configuration_override": ("build", "context builder"),
+}
+
+# in-place mutation of a parameter that is fine: the parameter is the object the function exists to fill
+PARAM_MUTATION_OK = {
+    "nunavut.jinja.environment:CodeGenEnvironment._add_to_environment": "`collection` is the environment's own filter/test/global table: filling it is the function's purpose (construction time)",
+    "nunavut.lang.cpp:Language._validate_globals": "globals_map is the fresh dict Language.get_globals() creates and caches",
+    "nunavut.lang.cpp:Language._validate_language_options": "options is this language object's own option map, filled once in Language.__init__ (configuration time)",
+    "nunavut.lang.py:Language._validate_language_options": "options is this language object's own option map, filled once in Language.__init__ (configuration time)",
+    "nunavut._dependencies:DependencyBuilder._extract_dependent_types": "inout_dependencies is the accumulator the recursion fills",
+    "nunavut._dependencies:DependencyBuilder._extract_dependent_types_handle_array_type": "inout_dependencies is the accumulator",
 }
 
 PER_FILE_ROOTS = ["nunavut.jinja:DSDLCodeGenerator._generate_type", "nunavut.jinja:SupportGenerator._generate_header",
